@@ -311,4 +311,45 @@ theorem duplicate_payload_calls_again_without_guard :
       [.call 3 1 .payload 21 .fatal, .call 3 1 .payload 0 .fatal] ∧
     (run (wCfg' true fatalAt3) init dupFatalOps).ledger.filter (Entry.isCallOf 3 1) = [.call 3 1 .payload 0 .fatal] := by decide
 
+/-- the same for the constant the source has today (`Facts.C14.maxRetries`, used by the driver): a changed budget re-proves or fails -/
+theorem retry_attempts_machine_source (retries : Int) (hlo : -9223372036854775808 ≤ retries) (hhi : retries < 9223372036854775808) :
+    retryAttemptsM (Int.ofNat Facts.C14.maxRetries) retries =
+      if 0 ≤ retries ∧ retries + 1 < Int.ofNat Facts.C14.maxRetries then some (Int.ofNat Facts.C14.maxRetries - (retries + 1)) else none :=
+  retry_attempts_machine retries hlo hhi
+
+/-! ### regenerated facts the construction-side model relies on -/
+
+/-- the option closures: each assigns exactly the field the model's `applyOpt` sets; filters are APPENDED -/
+theorem fact_notifier_options :
+    Facts.C14.notifierOptionBodies =
+      ["WithRetryDelay: notifier.retryDelay = delay",
+       "WithPersistency: notifier.db = db",
+       "WithSelectionFilter: notifier.filters = append(notifier.filters, filter)",
+       "WithContext: notifier.ctx = subCtx; notifier.cancel = cancelFn",
+       "withCounters: notifier.notifiedCounter = notifiedCounter; notifier.finishedCounter = finishedCounter"] ∧
+    Facts.C14.newNotifierDefaults = ["name: name", "ctx: ctx", "cancel: cancel", "receiver: receiverFn", "retryDelay: defaultRetryDelay"] ∧
+    Facts.C14.newNotifierOptionLoop = ["range options { option(subscriber) }"] ∧
+    Facts.C14.isPersistentExpr = "p.db != nil" := ⟨rfl, rfl, rfl, rfl⟩
+
+/-- the job shelf of a notifier: the model's `shelfName` IS the regenerated format `_%s_jobs` applied to the name -/
+theorem fact_shelf_name (n : NCfg) : n.shelfName = Facts.C14.shelfNamePrefix ++ n.name ++ Facts.C14.shelfNameSuffix := rfl
+
+/-- the check order of Save: not persistent ⇒ nil; other store ⇒ error; a rejecting filter ⇒ nil; then "only new events" (`saveKind`) -/
+theorem fact_save_check_order :
+    Facts.C14.saveReturns =
+      ["p.db == nil => return nil",
+       "tx.Store() != p.db => return errors.New(\"trying to save Event on different DB\")",
+       "range p.filters && !f(event) => return nil",
+       "errors.Is(err, stoabs.ErrKeyNotFound) => return p.writeEvent(writer, event)",
+       "err != nil => return err",
+       "return nil"] := rfl
+
+/-- state.Notifier: withCounters appended, NewNotifier, LoadOrStore by name, a loaded (duplicate) name is refused (`register`) -/
+theorem fact_registry :
+    Facts.C14.stateNotifierCalls =
+      ["append(options, withCounters(s.eventsNotifyCount, s.eventsFinishedCount))", "NewNotifier(name, receiver, options)",
+       "s.notifiers.LoadOrStore(name, n)"] ∧
+    Facts.C14.stateNotifierReturns =
+      ["loaded => return nil, fmt.Errorf(\"nuts event receiver %q registration denied on duplicate name\", name)", "return n, nil"] := ⟨rfl, rfl⟩
+
 end Nuts.C14.Props
